@@ -4,7 +4,8 @@ copy of the library, run `./check <prop> --tier quick` against it and report wha
 
     tools/bridge_mutants.py [PROP ...] [--scratch DIR] [--build-only]
 
-Every entry below changes the decision logic that `py2lean/elements.py` translates; each must end in `VIOLATION` (the bridge
+Every entry below changes the decision logic that `py2lean/elements.py` (elements) or `py2lean/kernel.py` (the kernel, list `K`:
+properties C01, C04-C07, bridge theorems in `Props/KernelGen.lean`) translates; each must end in `VIOLATION` (the bridge
 theorem no longer compiles, or the translator refuses the source).  Entries marked `harmless` change nothing a run can observe
 (`8` vs `8.0`, commuted sums, renamed locals) and must end in `OK`.  The last run of every property is against the unmodified
 library, so that `lean/OnlVerif/Generated/*.lean` is left as translated from the true source.
@@ -15,6 +16,115 @@ import os, shutil, subprocess, sys, json
 
 HERE = os.path.dirname(os.path.dirname(os.path.abspath(__file__)))
 REPO = os.environ.get('ONL_REPO', '/repo')
+
+RES, CONT, STORE, BASE, EVENTS, CORE = ('onl/sim/resources/resource.py', 'onl/sim/resources/container.py', 'onl/sim/resources/store.py',
+                                         'onl/sim/resources/base.py', 'onl/sim/events.py', 'onl/sim/core.py')
+PREEMPT_BODY = '''            preempt = sorted(self.users, key=lambda e: e.key)[-1]
+            if preempt.key > event.key:
+                self.users.remove(preempt)
+                preempt.proc.interrupt(  # type: ignore
+                    Preempted(
+                        by=event.proc,
+                        usage_since=preempt.usage_since,
+                        resource=self,
+                    )
+                )'''
+
+CPUT = '''    def _do_put(self, event: ContainerPut) -> bool:
+        if self._capacity - self._level >= event.amount:
+            self._level += event.amount
+            event.succeed()
+            return True
+        else:
+            return False'''
+
+# kernel (C01, C04-C07): the generated files are Kernel{Res,Cond,Sched}.lean, the bridge theorems are in Props/KernelGen.lean.
+# An optional 7th component selects the occurrence of `old` (0 = first, -1 = last).
+K = [
+    # ---- C06: Resource / PriorityResource / PreemptiveResource
+    ('C06', 'KernelRes', RES, 'if len(self._users) < self.capacity:', 'if len(self._users) <= self.capacity:', 'VIOLATION'),
+    ('C06', 'KernelRes', RES, 'len(self.users) >= self.capacity and event.preempt', 'len(self.users) > self.capacity and event.preempt', 'VIOLATION'),
+    ('C06', 'KernelRes', RES, 'len(self.users) >= self.capacity and event.preempt', 'len(self.users) >= self.capacity', 'VIOLATION'),
+    ('C06', 'KernelRes', RES, 'if preempt.key > event.key:', 'if preempt.key >= event.key:', 'VIOLATION'),
+    ('C06', 'KernelRes', RES, 'if preempt.key > event.key:', 'if preempt.key < event.key:', 'VIOLATION'),
+    ('C06', 'KernelRes', RES, '(self.priority, self.time, not self.preempt)', '(self.priority, self.time)', 'VIOLATION'),
+    ('C06', 'KernelRes', RES, '(self.priority, self.time, not self.preempt)', '(self.priority, self.time, self.preempt)', 'VIOLATION'),
+    ('C06', 'KernelRes', RES, '(self.priority, self.time, not self.preempt)', '(self.time, self.priority, not self.preempt)', 'VIOLATION'),
+    ('C06', 'KernelRes', RES, '(self.priority, self.time, not self.preempt)', '(-self.priority, self.time, not self.preempt)', 'VIOLATION'),
+    ('C06', 'KernelRes', RES, '            event.usage_since = self._env.now\n', '', 'VIOLATION'),
+    ('C06', 'KernelRes', RES, '            self._users.append(event)\n            event.usage_since = self._env.now\n            event.succeed()',
+     '            event.succeed()\n            self._users.append(event)\n            event.usage_since = self._env.now', 'VIOLATION'),
+    ('C06', 'KernelRes', RES, 'sorted(self.users, key=lambda e: e.key)[-1]', 'sorted(self.users, key=lambda e: e.key)[0]', 'VIOLATION'),
+    ('C06', 'KernelRes', RES, '        event.succeed()\n        return True\n\n\nclass PriorityRequest', '        event.succeed()\n        return False\n\n\nclass PriorityRequest', 'VIOLATION'),
+    ('C06', 'KernelRes', RES, 'super().sort(key=lambda e: e.key)', 'super().sort(key=lambda e: e.key, reverse=True)', 'VIOLATION'),
+    ('C06', 'KernelRes', BASE, '            if not proceed:\n                break', '            if proceed is None:\n                break', 'VIOLATION'),
+    ('C06', 'KernelRes', BASE, '            if not put_event.triggered:\n                idx += 1', '            if put_event.triggered:\n                idx += 1', 'VIOLATION'),
+    ('C06', 'KernelRes', BASE, 'self.callbacks.append(resource._trigger_get)', 'self.callbacks.append(resource._trigger_put)', 'VIOLATION'),
+    ('C06', 'KernelRes', RES, 'if len(self._users) < self.capacity:', 'if self.capacity > len(self._users):', 'OK'),
+    ('C06', 'KernelRes', RES, PREEMPT_BODY, PREEMPT_BODY.replace('preempt', 'victim').replace('event.victim', 'event.preempt'), 'OK'),
+    ('C06', 'KernelRes', RES, '    def _do_put(self, event: Request) -> bool:\n        if len', '    def _do_put(self, event: Request) -> bool:\n        # free slot?\n        if len', 'OK'),
+    # ---- C07: Container / Store / PriorityStore / FilterStore / cancel
+    ('C07', 'KernelRes', CONT, 'if self._capacity - self._level >= event.amount:', 'if self._capacity - self._level > event.amount:', 'VIOLATION'),
+    ('C07', 'KernelRes', CONT, 'if self._level >= event.amount:', 'if self._level > event.amount:', 'VIOLATION'),
+    ('C07', 'KernelRes', CONT, 'if amount <= 0:', 'if amount < 0:', 'VIOLATION'),
+    ('C07', 'KernelRes', CONT, 'if amount <= 0:', 'if amount < 0:', 'VIOLATION', -1),
+    ('C07', 'KernelRes', CONT, 'self._level += event.amount', 'self._level = event.amount', 'VIOLATION'),
+    ('C07', 'KernelRes', CONT, 'self._level -= event.amount', 'self._level -= 1', 'VIOLATION'),
+    ('C07', 'KernelRes', CONT, '            self._level -= event.amount\n            event.succeed()', '            self._level -= event.amount', 'VIOLATION'),
+    ('C07', 'KernelRes', STORE, 'if len(self.items) < self._capacity:', 'if len(self.items) <= self._capacity:', 'VIOLATION'),
+    ('C07', 'KernelRes', STORE, 'if len(self.items) < self._capacity:', 'if len(self.items) <= self._capacity:', 'VIOLATION', -1),
+    ('C07', 'KernelRes', STORE, 'event.succeed(self.items.pop(0))', 'event.succeed(self.items.pop())', 'VIOLATION'),
+    ('C07', 'KernelRes', STORE, 'heappush(self.items, event.item)', 'self.items.append(event.item)', 'VIOLATION'),
+    ('C07', 'KernelRes', STORE, '                break\n        return True', '                break\n        return False', 'VIOLATION'),
+    ('C07', 'KernelRes', STORE, '                event.succeed(item)\n                break', '                event.succeed(item)', 'VIOLATION'),
+    ('C07', 'KernelRes', BASE, '            # satisfiable now; do not leave them stranded.\n            self.resource._trigger_put(None)',
+     '            # satisfiable now; do not leave them stranded.', 'VIOLATION'),
+    ('C07', 'KernelRes', BASE, '            # satisfiable now; do not leave them stranded.\n            self.resource._trigger_get(None)',
+     '            # satisfiable now; do not leave them stranded.\n            self.resource._trigger_put(None)', 'VIOLATION'),
+    ('C07', 'KernelRes', BASE, '        if not self.triggered:\n            self.resource.get_queue.remove(self)', '        if self.triggered:\n            self.resource.get_queue.remove(self)', 'VIOLATION'),
+    ('C07', 'KernelRes', CONT, 'if self._level >= event.amount:', 'if event.amount <= self._level:', 'OK'),
+    ('C07', 'KernelRes', CONT, CPUT, CPUT.replace('event', 'req'), 'OK'),
+    ('C07', 'KernelRes', STORE, '    def _do_get(self, event: StoreGet) -> bool:\n        if self.items:', '    def _do_get(self, evt: StoreGet) -> bool:\n        event = evt\n        if self.items:', 'VIOLATION'),
+    # ---- C05: conditions
+    ('C05', 'KernelCond', EVENTS, 'return len(events) == count', 'return len(events) <= count', 'VIOLATION'),
+    ('C05', 'KernelCond', EVENTS, 'return count > 0 or len(events) == 0', 'return count >= 0 or len(events) == 0', 'VIOLATION'),
+    ('C05', 'KernelCond', EVENTS, 'return count > 0 or len(events) == 0', 'return count > 0', 'VIOLATION'),
+    ('C05', 'KernelCond', EVENTS, '        self._count += 1\n', '        self._count += 2\n', 'VIOLATION'),
+    ('C05', 'KernelCond', EVENTS, '            event._defused = True\n            self.fail(event._value)', '            self.fail(event._value)', 'VIOLATION'),
+    ('C05', 'KernelCond', EVENTS, '        if self._value is not PENDING:\n            return\n\n        self._count += 1', '        self._count += 1', 'VIOLATION'),
+    ('C05', 'KernelCond', EVENTS, '        if not event._ok:\n            # Abort if the event has failed.', '        if event._ok:\n            # Abort if the event has failed.', 'VIOLATION'),
+    ('C05', 'KernelCond', EVENTS, 'if self.env != event.env:', 'if self.env == event.env:', 'VIOLATION'),
+    ('C05', 'KernelCond', EVENTS, '        if not self._events:\n            # Immediately succeed', '        if self._events is None:\n            # Immediately succeed', 'VIOLATION'),
+    ('C05', 'KernelCond', EVENTS, 'super().__init__(env, Condition.all_events, events)', 'super().__init__(env, Condition.any_events, events)', 'VIOLATION'),
+    ('C05', 'KernelCond', EVENTS, 'return count > 0 or len(events) == 0', 'return 0 < count or len(events) == 0', 'OK'),
+    ('C05', 'KernelCond', EVENTS, 'return len(events) == count', 'return count == len(events)', 'OK'),
+    # ---- C01: scheduling
+    ('C01', 'KernelSched', EVENTS, 'URGENT: EventPriority = EventPriority(0)', 'URGENT: EventPriority = EventPriority(2)', 'VIOLATION'),
+    ('C01', 'KernelSched', EVENTS, 'env.schedule(self, NORMAL, delay)', 'env.schedule(self, URGENT, delay)', 'VIOLATION'),
+    ('C01', 'KernelSched', EVENTS, 'env.schedule(self, NORMAL, delay)', 'env.schedule(self, NORMAL)', 'VIOLATION'),
+    ('C01', 'KernelSched', EVENTS, 'if delay < 0:', 'if delay <= 0:', 'VIOLATION'),
+    ('C01', 'KernelSched', CORE, '(self._now + delay, priority, next(self._eid), event)', '(self._now, priority, next(self._eid), event)', 'VIOLATION'),
+    ('C01', 'KernelSched', CORE, '(self._now + delay, priority, next(self._eid), event)', '(priority, self._now + delay, next(self._eid), event)', 'VIOLATION'),
+    ('C01', 'KernelSched', CORE, 'priority: EventPriority = NORMAL,', 'priority: EventPriority = URGENT,', 'VIOLATION'),
+    ('C01', 'KernelSched', CORE, 'if at <= self.now:', 'if at < self.now:', 'VIOLATION'),
+    ('C01', 'KernelSched', CORE, '(at, URGENT, next(self._eid), until)', '(at, NORMAL, next(self._eid), until)', 'VIOLATION'),
+    ('C01', 'KernelSched', CORE, '(at, URGENT, next(self._eid), until)', '(self._now + (at - self._now), URGENT, next(self._eid), until)', 'VIOLATION'),
+    ('C01', 'KernelSched', EVENTS, "has already been triggered')\n\n        self._ok = True", "has already been triggered')\n\n        self._ok = False", 'VIOLATION'),
+    ('C01', 'KernelSched', EVENTS, '        if self._value is not PENDING:\n            raise RuntimeError', '        if self._value is PENDING:\n            raise RuntimeError', 'VIOLATION'),
+    ('C01', 'KernelSched', EVENTS, '                self._value = e.args[0] if len(e.args) else None\n                self.env.schedule(self)',
+     '                self._value = e.args[0] if len(e.args) else None\n                self.env.schedule(self, URGENT)', 'VIOLATION'),
+    ('C01', 'KernelSched', CORE, "if not event._ok and not hasattr(event, '_defused'):", "if not event._ok or not hasattr(event, '_defused'):", 'VIOLATION'),
+    ('C01', 'KernelSched', CORE, 'if at <= self.now:', 'if self.now >= at:', 'OK'),
+    ('C01', 'KernelSched', EVENTS, 'if delay < 0:', 'if 0 > delay:', 'OK'),
+    # ---- C04: interrupts, process start
+    ('C04', 'KernelSched', EVENTS, 'env.schedule(self, URGENT)', 'env.schedule(self, NORMAL)', 'VIOLATION'),
+    ('C04', 'KernelSched', EVENTS, 'self.env.schedule(self, URGENT)', 'self.env.schedule(self)', 'VIOLATION'),
+    ('C04', 'KernelSched', EVENTS, '        if process.triggered:\n            raise RuntimeError', '        if not process.triggered:\n            raise RuntimeError', 'VIOLATION'),
+    ('C04', 'KernelSched', EVENTS, 'if process is self.env.active_process:', 'if process is not self.env.active_process:', 'VIOLATION'),
+    ('C04', 'KernelSched', EVENTS, '        self._defused = True\n\n        if process.triggered:', '        if process.triggered:', 'VIOLATION'),
+    ('C04', 'KernelSched', EVENTS, '        self._ok = False\n        self._defused = True', '        self._ok = True\n        self._defused = True', 'VIOLATION'),
+    ('C04', 'KernelSched', EVENTS, '        Interruption(self, cause)', '        Interruption(self, None)', 'VIOLATION'),
+]
 
 M = [  # (property, generated file stem, source file, old, new, expected: 'VIOLATION' | 'OK')
     ('C09', 'Port', 'onl/netdev/port.py', 'byte_count > self.qlimit', 'byte_count >= self.qlimit', 'VIOLATION'),
@@ -71,7 +181,7 @@ M = [  # (property, generated file stem, source file, old, new, expected: 'VIOLA
     ('C16', 'Sink', 'onl/packet/tcp_sink.py', 'if self.recv_buffer[0][0] == 0:', 'if self.recv_buffer[0][0] != 0:', 'VIOLATION'),
     ('C16', 'Sink', 'onl/packet/tcp_sink.py', 'flow_id=packet.flow_id + 10000', 'flow_id=packet.flow_id + 1000', 'VIOLATION'),
     ('C16', 'Sink', 'onl/packet/tcp_sink.py', 'acknowledgement.ack = self.next_seq_expected', 'acknowledgement.ack = self.next_seq_expected + 1', 'VIOLATION'),
-]
+] + K
 
 
 def run(cmd, env, timeout, cwd=HERE):
@@ -95,17 +205,22 @@ def main():
     bad = 0
     props = sorted({m[0] for m in M if not args or m[0] in args})
     for prop in props:
-        for _, stem, rel, old, new, want in [m for m in M if m[0] == prop]:
+        for m in [m for m in M if m[0] == prop]:
+            _, stem, rel, old, new, want = m[:6]
+            occ = m[6] if len(m) > 6 else 0
             src = open(os.path.join(REPO, rel)).read()
             if src.count(old) < 1:
                 print(f'SKIP {prop} {rel}: {old!r} not in the source')
+                bad += 1
                 continue
-            i = src.rindex(old) if (prop == 'C15' and 'self.deficit[class_id] -= packet.size' in old) else src.index(old)
+            i = src.rindex(old) if (occ == -1 or (prop == 'C15' and 'self.deficit[class_id] -= packet.size' in old)) else src.index(old)
             open(os.path.join(mut, rel), 'w').write(src[:i] + new + src[i + len(old):])
             if build_only:
                 penv = dict(env, PYTHONPATH=HERE + ':' + mut)
-                rc0, out0 = run(['/venv/bin/python', '-c', f'from py2lean import translate\ntranslate.regenerate_all(only=({stem!r},))'], penv, 300)
-                rc1, out1 = run(['lake', 'build', f'OnlVerif.Props.{prop}'], dict(env), 1800, os.path.join(HERE, 'lean')) if rc0 == 0 else (1, '')
+                only = ('KernelRes', 'KernelCond', 'KernelSched') if stem.startswith('Kernel') else (stem,)
+                target = 'OnlVerif.Props.KernelGen' if stem.startswith('Kernel') else f'OnlVerif.Props.{prop}'
+                rc0, out0 = run(['/venv/bin/python', '-c', f'from py2lean import translate\ntranslate.regenerate_all(only={only!r})'], penv, 300)
+                rc1, out1 = run(['lake', 'build', target], dict(env), 1800, os.path.join(HERE, 'lean')) if rc0 == 0 else (1, '')
                 rc1 = rc1 if rc0 == 0 else 1
                 got = 'OK' if (rc0 == 0 and rc1 == 0) else 'VIOLATION'
                 detail = (out0.strip().splitlines() or [''])[-1][:200] if rc0 else ' | '.join(l for l in out1.splitlines() if l.startswith('error:'))[:200]
